@@ -41,6 +41,9 @@ func H_C15_load() {
 	var fail [9]bool
 	fail[choose("failA", 9)] = true
 	fail[choose("failB", 9)] = true
+	if tierThorough() {
+		fail[choose("failC", 9)] = true // up to three simultaneous failures
+	}
 	// index 0 = no failure
 	if fail[1] {
 		fx.cl.snapErr = vErrInjected
@@ -142,7 +145,11 @@ func H_C15_reopen() {
 func H_C15_types() {
 	setMerge(true)
 	cfg := &config.Dcp{}
-	typ := nondetStr("type", concretize(nondetInt("len"), 0, 12))
+	maxLen := 12
+	if tierThorough() {
+		maxLen = 24 // longer than every known type name (kubernetesStatefulSet has 21 bytes)
+	}
+	typ := nondetStr("type", concretize(nondetInt("len"), 0, maxLen))
 	known := typ == "static" || typ == "couchbase" || typ == "kubernetesStatefulSet" || typ == "kubernetesHa" || typ == "dynamic"
 	assume(!known)
 	cfg.Dcp.Group.Membership.Type = typ
